@@ -128,9 +128,10 @@ CLAIMS = {
         text="Theorems: for every replacement accepted by replace_ok (same length, newline and tab positions kept, no backslash, own "
              "quote, ? % : and no / in block comments) every observation form that the rules apply to a token's spelling is "
              "unchanged; line-comment and string bodies of such characters lex to the value extended character by character "
-             "with identical columns.  FILE level (C17_comment_replace_file_obs, Proofs/LexPrefix.v): for every file <prefix of "
-             "blanks, identifiers, keywords, one-character operators, brackets and decimal constants satisfying the decidable "
-             "lexs_ok> followed by a // comment up to the line end, replacing the comment text by admissible text of the same "
+             "with identical columns.  FILE level (C17_comment_replace_file_obs2, Proofs/LexPrefix2.v): for every file <prefix of "
+             "blanks, identifiers, keywords, one-character operators, brackets, decimal constants, block comments over one or "
+             "several lines, // comments and plain unprefixed strings satisfying the decidable lexs_ok2 - so also files that "
+             "start with the 42 header (Example with the repository's header)> followed by a // comment up to the line end, replacing the comment text by admissible text of the same "
              "length leaves every other lexeme, the final lexer state and every covered observation unchanged; for other "
              "prefixes the _partial theorem (tokens from the edit site on proved equal, C17_file_compose; tokens in front "
              "assumed equal) plus the tested lexer comparison apply; block-comment and char loops are tested.  The list of "
@@ -147,7 +148,9 @@ CLAIMS = {
              "symbol) every observation form the rules apply to identifier spellings is unchanged, and an admissible renaming is "
              "injective; the lexer model turns an identifier lexeme into one token spanning exactly it at the same position, and "
              "two same-length non-keyword lexemes give the same token type, position and following state.  FILE level "
-             "(C18_rename_file_obs, Proofs/LexPrefix.v): for every file <simple-lexeme prefix satisfying the decidable lexs_ok> "
+             "(C18_rename_file_obs2, Proofs/LexPrefix2.v): for every file <prefix of blanks, identifiers, keywords, one-character "
+             "operators, brackets, decimal constants, block comments, // comments and plain strings satisfying the decidable "
+             "lexs_ok2 - so also files starting with the 42 header (C18_header_program_meets_conditions)> "
              "<identifier at an ident_site> <rest>, renaming that lexeme under pair_ok leaves every other lexeme with its "
              "positions and every covered observation unchanged; a whole-file consistent renaming is the tested iteration of "
              "it, and for other prefixes the _partial theorem (prefix-run assumption) applies.  Ties re-proved on every run over tables regenerated from the source: "
@@ -218,19 +221,22 @@ CLAIMS = {
              "and none for any non-header; the tokenizer model records no diagnostic on any statement line of unbounded length built "
              "from identifiers, single spaces, one-character operators, brackets and 118 listed atoms (constants of every family of "
              "Spec/CConst.v inside their guards, keywords, multi-character operators); all-Notice diagnostics give OK and all-OK "
-             "files give exit 0.  ELEVEN of the 39 checks are proved silent AS A WHOLE on conforming statements, about functions "
+             "files give exit 0.  FOURTEEN of the 39 checks are proved silent AS A WHOLE on conforming statements, about functions "
              "regenerated from the source on every run, unbounded in the program (C01_checks_silent): CheckTernary, CheckLabel "
              "(hypothesis K: token kinds, tied to the rendered text by conforming_text_kinds), CheckLineLen, CheckManyInstructions "
              "(P: columns, from C09/C03), CheckSpacing, CheckExpressionStatement (statement shape at every position, by loop "
              "invariant), CheckEmptyLine, CheckLineIndent (V: the view at the statement, scope name and indentation derived from "
-             "the scope-trace model, history given), CheckFunctionsCount (trace model), CheckHeader, "
-             "CheckPreprocessorProtection; five more in part.  K1 (i = 0xb3ba;) is accepted since the repair (C01_accepted_K1).  "
-             "TESTED, not proved: the silence of the other 28 checks (listed in Props/C01.v and in the evidence) and the "
+             "the scope-trace model, history given), CheckFunctionsCount (trace model), CheckIdentifierName (names over the "
+             "source's own legal-character string), CheckComment (no comment in the statement, or comments first on their "
+             "line / followed by blanks only, outside functions), CheckLineCount (its only diagnostic is guarded by a parent "
+             "rule name that no primary of the regenerated registry has), CheckHeader, CheckPreprocessorProtection; five more "
+             "in part.  K1 (i = 0xb3ba;) is accepted since the repair (C01_accepted_K1).  "
+             "TESTED, not proved: the silence of the other 25 checks (listed in Props/C01.v and in the evidence) and the "
              "complete-unit claim - generated conforming programs (one third on the 25/5/4/5/80 limits, one tenth through the real "
              "CLI alone and in every position of several-file invocations in both formats) with a measured construct histogram, "
              "and grids of the known false-positive families.",
         ref="DESIGN.md 4.1", technique="Rocq proof (composition of header, guard, lexer-line and verdict theorems over an emitter table from source) + conforming-program search",
-        note=NOTE + "Partial: 28 checks are only searched; which primaries matched (the history) is a hypothesis; programs are generated by the Python renderer, not a Coq AST."),
+        note=NOTE + "Partial: 25 checks are only searched; which primaries matched (the history) is a hypothesis; programs are generated by the Python renderer, not a Coq AST."),
     "C02": dict(
         text="PARTIAL.  38 of the 84 catalogue operators have machine-checked theorems (S01-S08, S11, L01, W01, W03-W10, W12-W15, "
              "W17, T01-T04, O07, N01, N02, K01-K03, D04, F03, F04, F05), stated for EVERY token list and context view over "
